@@ -229,7 +229,7 @@ def gen_world(rw, rf, tier):
             markets.append(mw)
         elif p["fam"] == "aave":
             mw = A.gen_aave_market(rw, p["name"], n, {t: usd[t] for t in p["tokens"]}, tokens=p["tokens"], all_enabled=True,
-                                   index_style=rw.choice(["slow", "fast", "jumpy", None]))
+                                   index_style=rw.choice(["slow", "fast", "jumpy", None, "frozen"]))
             p["mw"] = mw
             markets.append(mw)
         elif p["fam"] == "squeeth":
@@ -391,6 +391,11 @@ def _uni_program(rp, p, nb, row_of, slot, emit, program):
             bq = U.base_quote(mw)
             o = {"op": "uni.add_by_tick", "m": mw["name"], "a": {"lo": lo, "hi": lo + rp.randint(1, 12) * sp,
                  "base": {"f": f"wallet:{bq[0]}", "x": "0.2"}, "quote": {"f": f"wallet:{bq[1]}", "x": "0.2"}}}
+        if o["op"] == "uni.add_by_tick" and "lo" in o["a"] and rp.random() < 0.12:
+            # a (nearly) full-range position: boundary ticks whose magnitude has the highest bits of the tick maths set
+            sp = U.spacing_of(mw["fee"])
+            o["a"]["lo"] = -((887272 - rp.choice([0, 0, 1000, 200000, 362000])) // sp) * sp
+            o["a"]["hi"] = ((887272 - rp.choice([0, 0, 1000, 200000, 362000])) // sp) * sp
         o.pop("hostile", None)
         emit(b, ph, o["op"], o["m"], o["a"])
 
